@@ -250,10 +250,27 @@ Proof.
   - apply reset_variable_keeps_atom; auto. apply Hv. left. reflexivity.
 Qed.
 (* two different literal selectors never alias: a reader of M["b"] is not reset by an assignment to M["a"] on that account *)
+Lemma paths_meet_snoc : forall p q a b, paths_meet (p ++ [a]) (q ++ [b]) = true -> comp_meet a b = true.
+Proof.
+  induction p as [|x p IH]; intros q a b H; destruct q as [|y q]; simpl in H.
+  - apply andb_prop in H. apply H.
+  - destruct q; simpl in H; apply andb_prop in H; destruct H as [_ H]; discriminate.
+  - destruct p; simpl in H; apply andb_prop in H; destruct H as [_ H]; discriminate.
+  - apply andb_prop in H. destruct H as [_ H]. eapply IH; eauto.
+Qed.
 Lemma literals_do_not_alias : forall c s1 s2, lit_sel s1 = true -> lit_sel s2 = true -> may_alias (VSel c s1) (VSel c s2) = false.
-Proof. intros c s1 s2 H1 H2. unfold may_alias. rewrite H1, H2. simpl. rewrite !andb_false_r. reflexivity. Qed.
-
-(* Forget / Changed *)
+Proof.
+  intros c s1 s2 H1 H2. unfold may_alias.
+  destruct (var_eqb (VSel c s2) (VSel c s1)) eqn:E; [reflexivity|]. cbn [negb andb].
+  apply Bool.not_true_is_false. intro P.
+  assert (Hne: s2 <> s1).
+  { intro Heq. subst s2. destruct syntax_eqb_refl as (_ & _ & R & _). rewrite R in E. discriminate. }
+  destruct s1 as [[[k1|i1|f1|b1|]|?|?|?|?|?|?]|?|?]; try discriminate H1;
+  destruct s2 as [[[k2|i2|f2|b2|]|?|?|?|?|?|?]|?|?]; try discriminate H2;
+    cbn [apath] in P; apply paths_meet_snoc in P; simpl in P; try discriminate.
+  - apply String.eqb_eq in P. subst. apply Hne. reflexivity.
+  - apply Z.eqb_eq in P. subst. apply Hne. reflexivity.
+Qed.
 Theorem reset_name_keeps_atom : forall s n a,
   has_atom s a ->
   (forall x, In x allvars -> var_text x = n -> containsb (atom_snapshot a) (var_snapshot x) = false) ->
